@@ -23,8 +23,11 @@ inductive TMode | passive | active
 
 /-- boundary events (the trace alphabet shared with the harness) -/
 inductive Ev
-  | ctlConnect | ctlShutdown | ctlClose
+  | ctlConnect (host : Bytes) (port : Nat) | ctlShutdown | ctlClose
+  | ctlReply (code : Nat) (text : Bytes)   -- ghost: a reply was framed (not visible to the harness)
+  | listing (text : Bytes)                 -- ghost: the text of a completed listing
   | ctlWrite (bytes : Bytes)
+  | ctlWriteFail (bytes : Bytes)           -- ghost: the write was attempted on a closed connection
   | ctlReadLine
   | obsConnected (o : Nat) (host : Bytes) (port : Nat)
   | obsRequest (o : Nat) (cmd : Bytes)
@@ -138,7 +141,9 @@ def forObservers (f : Nat → Ev) : M Unit := do
 def ctlSend (cmd : Bytes) : M Unit := do
   forObservers (fun o => .obsRequest o cmd)
   let w ← getW
-  if !w.connected then throwE      -- write on a closed socket
+  if !w.connected then
+    emit (.ctlWriteFail (cmd ++ CRLF))      -- write on a closed socket
+    throwE
   else
     emit (.ctlWrite (cmd ++ CRLF))
     modifyW fun w =>
@@ -164,6 +169,7 @@ def ctlRecv : M Reply := do
     modifyW fun w => { w with ctl := c', net := net' }
     match r with
     | .reply code text =>
+      emit (.ctlReply code text)
       if code == 421 then ctlClose
       forObservers (fun o => .obsReply o code text)
       pure ⟨code, text⟩
@@ -224,7 +230,7 @@ def connect (host : Bytes) (port : Nat) (cred : Option (Bytes × Bytes)) : M Rep
       | [] => { raws := [] }
     { w with ctl := {}, connected := true, script := w.script.tail,
              net := { w.net with stream := g.raws.flatten } }
-  emit .ctlConnect
+  emit (.ctlConnect host port)
   forObservers (fun o => .obsConnected o host port)
   let (r, rs) ← recvInto Replies.empty
   let (r, rs) ← if r.code == 120 then recvInto rs else pure (r, rs)
@@ -449,8 +455,14 @@ def recvLoop (cb : Bool) (t : TType) (d : Nat) : Nat → Bytes → Bool → M (B
     match r with
     | none => emit (.dataReadErr d); pure (prev, true)
     | some 0 => emit (.dataRead d 0); pure (prev, false)
-    | some n =>
+    | some n0 =>
+      let n := min n0 8192            -- the block buffer holds 8192 bytes
       let block := payload.take n
+      if block.isEmpty then
+        -- nothing left to deliver: the read reports end-of-file
+        emit (.dataRead d 0)
+        pure (prev, false)
+      else
       emit (.dataRead d block.length)
       let prev ← streamWrite t prev block
       if cb then
@@ -609,6 +621,7 @@ def fileList (path : Option Bytes) (names : Bool) : M (Replies × Bytes) :=
       modifyW fun w => { w with sinkSilent := true, sink := [] }
       dataRecv false w.ttype
       let w ← getW
+      emit (.listing w.sink)
       forObservers (fun o => .obsFileList o w.sink)
       dataDisconnect true
       let (_, rs) ← recvInto rs
